@@ -62,6 +62,17 @@ def wfChecks (db : Db) : List (String × Bool) :=
     ("tracklist-tracks-live", db.ctl.all fun r => liveTracks.contains r.2),
     ("track-ids-unique", nodupB (db.track.map (·.id))) ]
 
+/-- What `PRAGMA foreign_key_check` reports for the modelled tables: the child rows whose parent row is missing.
+Declared foreign keys (schema_1_6_0.cpp … ; from 1.9.1 the same on the List* tables the views project):
+CrateParentList.crateOriginId / crateParentId → Crate.id, CrateHierarchy.crateId / crateIdChild → Crate.id,
+CrateTrackList.crateId → Crate.id, CrateTrackList.trackId → Track.id.  One entry per violating (table, row). -/
+def fkViolations (db : Db) : List (String × Id × Id) :=
+  let ids := db.crate.map (·.id)
+  let tids := db.track.map (·.id)
+  (db.cpl.filter (fun r => !(ids.contains r.1 && ids.contains r.2))).map (fun r => ("CrateParentList", r.1, r.2)) ++
+  (db.ch.filter (fun r => !(ids.contains r.1 && ids.contains r.2))).map (fun r => ("CrateHierarchy", r.1, r.2)) ++
+  (db.ctl.filter (fun r => !(ids.contains r.1 && tids.contains r.2))).map (fun r => ("CrateTrackList", r.1, r.2))
+
 def WfRaw (db : Db) : Bool := (wfChecks db).all (·.2)
 
 def wfFailures (db : Db) : List String := ((wfChecks db).filter (fun c => !c.2)).map (·.1)
